@@ -1,7 +1,7 @@
 (* Executable checker used by harness/c08.py and harness/c09.py: the model is run on the same op list
    as the real LocalServer/Manager/Disk code and everything visible at the seams is compared. *)
 From Coq Require Import List NArith ZArith String Bool.
-From EKW Require Import Shm.Lottery Shm.Manager.
+From EKW Require Import Shm.Lottery Shm.Manager Shm.ManagerConc.
 Import ListNotations.
 
 Definition opt_eqb {A} (eqb : A -> A -> bool) (a b : option A) : bool :=
@@ -40,10 +40,15 @@ Definition output_eqb (a b : output) : bool :=
   let '(ra, fa, ja) := a in let '(rb, fb, jb) := b in
   resp_eqb ra rb && Z.eqb fa fb && list_eqb seen_eqb ja jb.
 
-(* (capacity, op list, outputs observed on the implementation) *)
-Definition check_case (c : Z * list op * list output) : bool :=
-  let '(cap, ops, outs) := c in
-  list_eqb output_eqb (fst (run (init cap) ops)) outs.
+(* (configured capacity, what /dev/shm offers, epoch of the clock, op list with scripted instants, outputs observed on the implementation) *)
+Definition check_case (c : option Z * Z * Z * list op * list output) : bool :=
+  let '(cfg, avail, epoch, ops, outs) := c in
+  list_eqb output_eqb (fst (run (start cfg avail) (map (shift_op epoch) ops))) outs.
+
+(* the same for a fine-grained history (Shm/ManagerConc.v) *)
+Definition check_fcase (c : option Z * Z * Z * list fop * list output) : bool :=
+  let '(cfg, avail, epoch, ops, outs) := c in
+  list_eqb output_eqb (fst (frun (fstart cfg avail) (map (shift_fop epoch) ops))) outs.
 
 (* index of the first differing output, for diagnostics *)
 Fixpoint first_diff (n : nat) (a b : list output) : option nat :=
@@ -52,5 +57,7 @@ Fixpoint first_diff (n : nat) (a b : list output) : option nat :=
   | x :: r, y :: s => if output_eqb x y then first_diff (S n) r s else Some n
   | _, _ => Some n
   end.
-Definition where_differs (c : Z * list op * list output) : option nat :=
-  let '(cap, ops, outs) := c in first_diff 0 (fst (run (init cap) ops)) outs.
+Definition where_differs (c : option Z * Z * Z * list op * list output) : option nat :=
+  let '(cfg, avail, epoch, ops, outs) := c in first_diff 0 (fst (run (start cfg avail) (map (shift_op epoch) ops))) outs.
+Definition where_fdiffers (c : option Z * Z * Z * list fop * list output) : option nat :=
+  let '(cfg, avail, epoch, ops, outs) := c in first_diff 0 (fst (frun (fstart cfg avail) (map (shift_fop epoch) ops))) outs.
